@@ -23,7 +23,7 @@ EXPLANATION = (
     "stack entry that will close it, by its end token, or by rebinding an existing stack entry; R04e the classes in "
     "the INLINE/LEAF/CONTAINER/SPECIAL registries derive from the matching base class; R04f both generators register "
     "an end handler exactly for the classes that are closed by an end token. "
-    "R04g (=R02f on the parser packages) no boolean local that is tested or handed on can hold one constant only. Not decided: the nesting order chosen at run time (which entry is on top when a line is processed)."
+    "R04g (=R02f on the parser packages) no boolean local that is tested or handed on can hold one constant only. R04h where a start token already in the stream is replaced by a corrected copy, every path that puts the copy into the stream also re-points the stack entry at it (must-pass-through), so the end token refers to the start token that is in the stream. Not decided: the nesting order chosen at run time (which entry is on top when a line is processed)."
 )
 ASSUMPTIONS = ["rules and generators match an end token to its start by the end token's type name and start_markdown_token reference"]
 
